@@ -359,6 +359,81 @@ Section S.
   Qed.
 
   (* ------------------------------------------------------------------ *)
+  (* C05: at a zero temperature the run is a hill climb                  *)
+
+  Section Hill.
+    Variable kt0 : T.                       (* the zero temperature *)
+    Variable good_thr : T -> Prop.          (* what is known about the thresholds drawn *)
+    Variable c : cfg.
+    (* what is accepted at kt0 is not worse than the (non-NaN) held score *)
+    Hypothesis Hzero : forall thr new old, good_thr thr -> nis_nan old = false ->
+      accept thr (Some new) old kt0 = true -> nis_nan new = false /\ nleb old new = true.
+    (* cooling leaves kt0 where it is *)
+    Hypothesis Hcool : nmul kt0 (factor c) = kt0.
+    Hypothesis Hrefl : forall x : T, nis_nan x = false -> nleb x x = true.
+    Hypothesis Htrans : forall x y z : T, nleb x y = true -> nleb y z = true -> nleb x z = true.
+
+    Definition hill_inv (st : ost) : Prop := kt st = kt0 /\ nis_nan (score_cur st) = false.
+
+    Lemma advance_hill c' st d : c' = c ->
+      hill_inv st -> good_thr (d_thr d) ->
+      hill_inv (advance c' st d) /\ nleb (score_cur st) (score_cur (advance c' st d)) = true.
+    Proof.
+      intros -> [Hkt Hnan] Hthr.
+      destruct (fin st) eqn:Hfin.
+      { rewrite C06_fin_frozen by assumption. split; [split; assumption|now apply Hrefl]. }
+      assert (Hkt' : kt (advance c st d) = kt0).
+      { destruct (mc_step_keeps c st d) as (Hk & _).
+        destruct (advance_cases NN fexp score c st d Hfin) as [-> | (-> & _ & _)].
+        - congruence.
+        - destruct (end_loop_fields c (mc_step c st d)) as (Hk' & _).
+          rewrite Hk', Hk, Hkt. exact Hcool. }
+      pose proof (C06_step_accept_or_restore NN fexp score c st d Hfin) as Hs.
+      destruct (proposal c st d) as [ps'|] eqn:Hp.
+      - destruct Hs as [(s & Hacc & _ & Hsc) | (_ & _ & Hsc)].
+        + unfold OptSpec.step_accepted in Hacc. rewrite Hfin, Hp in Hacc.
+          destruct (score (calls st) ps') as [s'|]; [|discriminate].
+          destruct (Optimiser.accept NN fexp (d_thr d) (Some s') (score_cur st) (kt st)) eqn:Ha;
+            [|discriminate].
+          injection Hacc as <-. rewrite Hkt in Ha.
+          destruct (Hzero _ _ _ Hthr Hnan Ha) as [Hn Hle].
+          unfold hill_inv. rewrite Hsc. split; [split; assumption|exact Hle].
+        + unfold hill_inv. rewrite Hsc. split; [split; assumption|now apply Hrefl].
+      - destruct Hs as (_ & _ & Hsc). unfold hill_inv. rewrite Hsc. split; [split; assumption|now apply Hrefl].
+    Qed.
+
+    (* C05: from any state at the zero temperature the held score never decreases *)
+    Theorem C05_hill_climb_from draws : forall st,
+      hill_inv st -> Forall (fun d => good_thr (d_thr d)) draws ->
+      hill_inv (run c st draws) /\ nleb (score_cur st) (score_cur (run c st draws)) = true.
+    Proof.
+      induction draws as [|d ds IH]; intros st Hinv Hthr.
+      - cbn. split; [exact Hinv|]. apply Hrefl. apply Hinv.
+      - inversion Hthr as [|? ? Hd Hds]; subst.
+        destruct (advance_hill c st d eq_refl Hinv Hd) as [Hinv1 Hle1].
+        destruct (IH (advance c st d) Hinv1 Hds) as [Hinv2 Hle2].
+        rewrite run_cons. split; [exact Hinv2|]. eapply Htrans; eassumption.
+    Qed.
+
+    (* ... and so between any two points of the run: the sequence of held (accepted) scores is
+       non-decreasing, and the returned score is at least the input score *)
+    Theorem C05_hill_climb ps hs s0 draws1 draws2 :
+      kt_start c = kt0 -> nis_nan s0 = false ->
+      Forall (fun d => good_thr (d_thr d)) (draws1 ++ draws2) ->
+      nleb s0 (score_cur (run c (init c ps hs s0) draws1)) = true
+      /\ nleb (score_cur (run c (init c ps hs s0) draws1))
+              (score_cur (run c (init c ps hs s0) (draws1 ++ draws2))) = true.
+    Proof.
+      intros Hk Hn Hthr. apply Forall_app in Hthr. destruct Hthr as [H1 H2].
+      assert (Hi : hill_inv (init c ps hs s0)) by (split; assumption).
+      destruct (C05_hill_climb_from draws1 _ Hi H1) as [Hi1 Hle1].
+      split; [exact Hle1|].
+      unfold Optimiser.run. rewrite fold_left_app.
+      apply (C05_hill_climb_from draws2 _ Hi1 H2).
+    Qed.
+  End Hill.
+
+  (* ------------------------------------------------------------------ *)
   (* C08/C20: the returned state has a defined score; optimise returns   *)
 
   Section Deterministic.
